@@ -6,6 +6,7 @@ import (
 	"fmt"
 	"hash/crc32"
 	"os"
+	"strings"
 
 	"github.com/RoaringBitmap/roaring"
 	segment "github.com/blugelabs/bluge_segment_api"
@@ -153,6 +154,60 @@ func reach(c *explore.Ctx, visit func(scope string, idx int64, st *state)) {
 			}
 		}
 	}
+	// WIDE: many fields / long field names: multi-byte varints in the fields section and index
+	{
+		wide := func(nf int, longName bool) []model.Doc {
+			var b []model.Doc
+			for d := 0; d < 2; d++ {
+				doc := model.Doc{gen.IDField("w", d)}
+				for f := 0; f < nf; f++ {
+					name := fmt.Sprintf("f%03d", f)
+					if longName && f%50 == 0 {
+						name += strings.Repeat("-long-field-name", 20) // > 300 bytes
+					}
+					if (f+d)%3 == 0 {
+						continue
+					}
+					fl := model.Field{N: name, Len: 1 + f%3, Terms: []model.Term{{T: fmt.Sprintf("t%d", f%7), Freq: 1 + f%3}}, DV: f%10 == 0, St: f%25 == 0, Val: []byte(name)}
+					doc = append(doc, fl)
+				}
+				b = append(b, doc)
+			}
+			return b
+		}
+		for wi, spec := range [][2]int{{130, 0}, {130, 1}, {300, 0}, {12, 1}} {
+			scope := "R0-WIDE"
+			if !c.MineIdx(scope, int64(wi)) || c.Expired() {
+				continue
+			}
+			batch := wide(spec[0], spec[1] == 1)
+			ls := model.Build(batch)
+			desc := fmt.Sprintf("built WIDE fields=%d longNames=%v", spec[0], spec[1] == 1)
+			seg, err := build(batch, 1025)
+			if err != nil {
+				c.Eval()
+				c.Violate(scope, int64(wi), sigOf(c.Prop, "build", "error: "+err.Error()), err.Error(), desc)
+				continue
+			}
+			c.R.Transitions++
+			b, nn, err := persist(seg)
+			if err != nil {
+				c.Eval()
+				c.Violate(scope, int64(wi), sigOf(c.Prop, "persist", "error: "+err.Error()), err.Error(), desc)
+				continue
+			}
+			emit(scope, int64(wi), &state{desc: desc, bytes: b, n: nn, orig: seg, want: ls, mode: 1025})
+			mb, _, mn, err := merge([]segment.Segment{seg, seg}, []*roaring.Bitmap{bitmapOf(1), nil}, 1025)
+			c.R.Transitions++
+			if err != nil {
+				c.Eval()
+				c.Violate(scope+"/m", int64(wi), sigOf(c.Prop, "merge", "error: "+err.Error()), err.Error(), desc)
+				continue
+			}
+			want, _ := model.Merge([]*model.LSeg{ls, ls}, []map[uint64]bool{{1: true}, nil})
+			emit(scope+"/m", int64(wi), &state{desc: "merged twice-with-itself " + desc, bytes: mb, n: int64(mn), want: want, mode: 1025, depth: 1, merged: true})
+		}
+	}
 	// partners for depth 2
 	partners := [][]model.Doc{
 		{gen.MixDoc(2, "p", 0), gen.MixDoc(1, "p", 1)},
@@ -247,7 +302,7 @@ func mergeSweepNT(c *explore.Ctx, k, K, maxDocs int, cfgs []mergeCfg, check func
 func init() {
 	register(&explore.Prop{
 		ID: "C04", Level: levelMC, Explorer: "E1 + reachability over segment states",
-		Rule: "state space of segments reachable by New (MIX x modes, STORED-S, DV-S, empty batch, document counts 127..129, 255..257, 1024, 1025 built and merged) and by merge trees to depth 2 (every MERGE(k=2) output, then each output merged alone / with drops / with everything dropped / with itself / with three fixed partners in both orders); states de-duplicated per worker by exact byte image; each state is loaded from memory (exact-capacity copy) and from a file-backed io.ReaderAt and fully observed; " +
+		Rule: "state space of segments reachable by New (MIX x modes, STORED-S, DV-S, empty batch, document counts 127..129, 255..257, 1024, 1025 built and merged, segments with 130/300 fields and 300-byte field names) and by merge trees to depth 2 (every MERGE(k=2) output, then each output merged alone / with drops / with everything dropped / with itself / with three fixed partners in both orders); states de-duplicated per worker by exact byte image; each state is loaded from memory (exact-capacity copy) and from a file-backed io.ReaderAt and fully observed; " +
 			"states = distinct byte images per worker, transitions = build/merge operations; non-trivial = every state (degenerate shapes counted separately in counters.degenerate_states)",
 		Assumptions: commonAssumptions, Budget: qBudget, Run: runC04,
 	})
